@@ -33,6 +33,10 @@ PRIMS = ('int32', 'int64', 'float32', 'float64', 'str', 'bool', 'call')
 DESIGN_NAMES = ['a', 'a b', '`', '\\', '"', "'", 'é', '', '1a', 'a.b', '\n', '\t', '\U0001f600', 'tstruct', '\x00']
 EXTRA_NAMES = ['aé', 'a²', 'a\U0001d41a', '\\`', 'a\\', '\\n', '\x7f', '\r', '\x08', ' ', 'int', 'ǆ',
                '_', 'a`b', '\\u0041', ' ', 'é', 'struct{a: int32}', 'a:b', 'a,b', '<', '}']
+# "special" code points: BOM / byte-swapped BOM, noncharacters, line/paragraph separators, invisible format characters,
+# the edges of the surrogate gap, the replacement character, first/last astral code point, NEL
+SPECIAL_CODEPOINTS = [0xFEFF, 0xFFFE, 0xFFFF, 0x2028, 0x2029, 0x00AD, 0x200B, 0xD7FF, 0xE000, 0xFFFD, 0x10000, 0x10FFFF, 0x0085]
+SPECIAL_NAMES = [f for c in SPECIAL_CODEPOINTS for f in (chr(c), chr(c) + 'a', 'a' + chr(c) + 'b', 'a' + chr(c))]
 ALPHA_QUICK = ['a', '1', ' ', '`', '\\', '"', 'é', 'n']
 ALPHA_THOROUGH = ['a', '1', '_', ' ', '`', '\\', '"', "'", 'é', '\U0001f600', '\n', 'n', 'u', 'x']
 
@@ -52,18 +56,118 @@ def set_engine(fn, info=None, punctuation=None):
     _escape_probe.clear()
 
 
+def _use_model_engine(why=None):
+    from vf import enginelex
+
+    m = enginelex.build_model(boot.repo())
+    info = {'engine': 'vf.enginelex model (data extracted from the Scala sources; JavaTokenParsers.ident modelled)', **m.describe()}
+    if why:
+        info['real_lexer_not_used_because'] = why
+    set_engine(m.accepts, info, m.punctuation)
+
+
 def _ensure_engine():
+    """Lazy default (used by ad-hoc callers): the extracted model.  check()/replay() install the JVM-backed
+    acceptor first when it is available, see install_engine()."""
     global _punct
     if _engine is None:
-        from vf import enginelex
-
-        m = enginelex.build_model(boot.repo())
-        set_engine(m.accepts, {'engine': 'vf.enginelex model (data extracted from Scala source)', **m.describe()},
-                   m.punctuation)
+        _use_model_engine()
     if _punct is None:
         from vf import enginelex
 
         _punct = enginelex.extract_lexer_facts(enginelex.parser_scala_path(boot.repo()).read_text(encoding='utf-8'))['punctuation']
+
+
+SELFCHECK_TEXTS = ['`a b`', 'abc_1', '`a', 'a b', 'Struct', 'a', 'Dict', 'String', 'Locus', 'GRCh37', '`b c`', 'NDArray', 'Float64', 'c', 'Tuple']
+
+
+def _probe_text(letter):
+    return '`\\' + letter + {'x': '41', 'u': '0041', 'U': '00000041'}.get(letter, '') + '`'
+
+
+def install_engine(identifier_texts):
+    """Choose the engine-side acceptor for this run.  Default: the REAL IRLexer sliced from Parser.scala and run on
+    a JVM (vf.jvm_engine_side.lexer_accepts) -- ONE JVM call answering every identifier text of the run, served from a
+    table afterwards; a text that was not pre-lexed is a harness error.  Fallback (JVM/compiler/slice unavailable, or
+    VERIF_C31_ENGINE=model): the extracted model in vf.enginelex.  The choice is recorded in the evidence."""
+    import os
+
+    from vf import enginelex
+
+    want = os.environ.get('VERIF_C31_ENGINE', 'auto')
+    if want == 'model':
+        return _use_model_engine('VERIF_C31_ENGINE=model')
+    texts = set(identifier_texts) | set(SELFCHECK_TEXTS)
+    letters = set()
+    for t in texts:
+        if t.startswith('`'):
+            i = 1
+            while i < len(t) - 1:
+                if t[i] == '\\':
+                    letters.add(t[i + 1])
+                    i += 2
+                else:
+                    i += 1
+    texts |= {_probe_text(c) for c in letters}
+    texts.discard('')
+    texts = sorted(texts)
+    try:
+        from vf import jvm_engine_side
+
+        answers = jvm_engine_side.lexer_accepts(texts)
+    except Exception as ex:  # noqa: BLE001
+        if want == 'jvm':
+            raise
+        return _use_model_engine(f'{type(ex).__name__}: {str(ex)[:300]}')
+    if len(answers) != len(texts):
+        raise RuntimeError('harness: jvm_engine_side.lexer_accepts returned a different number of answers')
+    table = {t: (bool(a[0]), a[1]) for t, a in zip(texts, answers)}
+
+    def jvm_accepts(text):
+        try:
+            return table[text]
+        except KeyError:
+            raise RuntimeError(f'harness: identifier text {text!r} was not in the batch sent to the JVM lexer') from None
+
+    facts = enginelex.extract_lexer_facts(enginelex.parser_scala_path(boot.repo()).read_text(encoding='utf-8'))
+    info = {'engine': 'REAL IRLexer (sliced from Parser.scala + StringEscapeUtils.scala, compiled and run on a JVM by vf.jvm_engine_side); '
+                      'one JVM call for the whole run',
+            'identifier_texts_lexed_on_jvm': len(texts),
+            'type_string_splitting': 'python (backtick literal up to the first unescaped backtick, punctuation set extracted from Parser.scala); '
+                                     'each piece is then judged by the real lexer; IRParser.type_expr is a python re-implementation'}
+    try:
+        m = enginelex.build_model(boot.repo())
+        dis = [t for t in texts if (m.accepts(t)[0], m.accepts(t)[1] if m.accepts(t)[0] else None) != (table[t][0], table[t][1] if table[t][0] else None)]
+        info['extracted_model_disagrees_on'] = dis[:10]
+        info['extracted_model_agrees_on'] = len(texts) - len(dis)
+    except Exception as ex:  # noqa: BLE001
+        info['extracted_model'] = f'not built: {type(ex).__name__}: {str(ex)[:200]}'
+    set_engine(jvm_accepts, info, facts['punctuation'])
+
+
+def collect_name_texts(name):
+    from hail.utils.java import escape_parsable
+    from hail.utils.misc import escape_id
+
+    out = set()
+    for f in (escape_parsable, escape_id):
+        try:
+            out.add(f(name))
+        except Exception:  # noqa: BLE001
+            pass
+    return out
+
+
+def collect_type_texts(spec, punct):
+    from vf import enginelex
+
+    try:
+        e = build(spec)._parsable_string()
+    except Exception:  # noqa: BLE001
+        return set()
+    import re as _re
+
+    return {v for k, v in enginelex.split_tokens(e, punct) if k == 'backtick' or (k == 'run' and not _re.fullmatch(r'-?\d+', v))}
 
 
 def engine_accepts(identifier_text):
@@ -194,8 +298,7 @@ def _tuplify(x):
 def _escape_accepted(letter):
     """Does the engine accept the single escape \\<letter> in a backtick identifier?  (probed, cached)"""
     if letter not in _escape_probe:
-        digits = {'x': '41', 'u': '0041', 'U': '00000041'}.get(letter, '')
-        _escape_probe[letter] = bool(engine_accepts('`\\' + letter + digits + '`')[0])
+        _escape_probe[letter] = bool(engine_accepts(_probe_text(letter))[0])
     return _escape_probe[letter]
 
 
@@ -261,7 +364,11 @@ def check_type(spec):
     if spec_of(t) != spec:
         raise RuntimeError(f'harness: spec_of(build(spec)) != spec for {spec!r}: {spec_of(t)!r}')
     out = []
-    s = str(t)
+    try:
+        s = str(t)
+        e = t._parsable_string()
+    except Exception as ex:  # noqa: BLE001
+        return [('python-printer-raises', f'printing the type {spec!r} raises {type(ex).__name__}: {ex}', repr(spec))]
     # P1
     try:
         p = hl.dtype(s)
@@ -275,7 +382,6 @@ def check_type(spec):
         elif not (p == t and t == p):
             out.append(('python-str-roundtrip-unequal', f'hl.dtype({s!r}) has the same shape and names but compares unequal to the original', s))
     # E2
-    e = t._parsable_string()
     toks, err = enginelex.lex_type_string(e, engine_accepts, _punct)
     if toks is None:
         reason, ident = err
@@ -332,7 +438,7 @@ def _shape(spec):
 def name_space(tier):
     alpha = ALPHA_QUICK if tier == 'quick' else ALPHA_THOROUGH
     maxlen = 2 if tier == 'quick' else 3
-    names = list(DESIGN_NAMES) + list(EXTRA_NAMES)
+    names = list(DESIGN_NAMES) + list(EXTRA_NAMES) + list(SPECIAL_NAMES)
     for n in range(0, maxlen + 1):
         for tup in itertools.product(alpha, repeat=n):
             names.append(''.join(tup))
@@ -460,7 +566,7 @@ def work_items(tier):
     chunk = 8 if tier == 'quick' else 32
     for i in range(0, len(names), chunk):
         items.append(('names', names[i:i + chunk]))
-    base = list(dict.fromkeys(DESIGN_NAMES + EXTRA_NAMES))
+    base = list(dict.fromkeys(DESIGN_NAMES + EXTRA_NAMES + [chr(c) for c in SPECIAL_CODEPOINTS[:4]] + [chr(0xFEFF) + 'a']))
     pairs = [(a, b) for a in base for b in base if a != b]
     for i in range(0, len(pairs), 64):
         items.append(('pairs', pairs[i:i + 64]))
@@ -524,32 +630,51 @@ class _Acc:
                 self.by_depth, self.viol, self.samples)
 
 
-def _run_item(item):
-    acc = _Acc()
+def _item_cases(item):
     kind = item[0]
     if kind == 'names':
         for n in item[1]:
-            acc.do_name(n)
+            yield ('name', n)
             for spec in name_contexts(n):
-                acc.do_type(spec)
+                yield ('type', spec)
     elif kind == 'pairs':
         for a, b in item[1]:
             for spec in pair_contexts(a, b):
-                acc.do_type(spec)
+                yield ('type', spec)
     elif kind == 'd2':
         _, ci, lo, hi = item
         cfg = STRUCTURE_CONFIGS[_TIER[0]][ci]
         d2 = types_to_depth2(leaves_of(cfg[1], cfg[2]), cfg[3])
         for spec in d2[lo:hi]:
-            acc.do_type(spec)
+            yield ('type', spec)
     elif kind == 'd3':
         _, ci, i = item
         cfg = STRUCTURE_CONFIGS[_TIER[0]][ci]
         for spec in _d3_specs(cfg, i):
-            acc.do_type(spec)
+            yield ('type', spec)
     else:
         raise ValueError(item)
+
+
+def _run_item(item):
+    acc = _Acc()
+    for k, x in _item_cases(item):
+        if k == 'name':
+            acc.do_name(x)
+        else:
+            acc.do_type(x)
     return acc.result()
+
+
+def _collect_item(item):
+    """Pass 1 (only when the JVM lexer is used): every identifier text this item will hand to the engine."""
+    out = set()
+    for k, x in _item_cases(item):
+        out |= collect_name_texts(x) if k == 'name' else collect_type_texts(x, _COLLECT_PUNCT[0])
+    return out
+
+
+_COLLECT_PUNCT = [None]
 
 
 _TIER = ['quick']
@@ -559,7 +684,6 @@ def _selfcheck():
     """The harness's own pieces must agree with each other on a plain case before any verdict."""
     from vf import enginelex
 
-    _ensure_engine()
     ok, v = engine_accepts('`a b`')
     if not ok or v != 'a b':
         raise RuntimeError(f'engine acceptor rejects the plain identifier `a b`: {v}')
@@ -578,10 +702,12 @@ def _selfcheck():
 
 
 def check(tier, seed, procs):
+    import os
+
+    from vf import enginelex
+
     _TIER[0] = tier
     hl = _hl()
-    _ensure_engine()
-    _selfcheck()
     # register every genome name once, before forking, so all workers share the same references
     for n in name_space(tier):
         _ensure_genome(hl, n)
@@ -589,7 +715,17 @@ def check(tier, seed, procs):
         for g in cfg[2]:
             _ensure_genome(hl, g)
     items = par.rotate(work_items(tier), seed)
-    rows = par.pmap(_run_item, items, procs, chunksize=1 if tier == 'quick' else None)
+    if os.environ.get('VERIF_C31_ENGINE', 'auto') == 'model':
+        install_engine(())
+    else:
+        _COLLECT_PUNCT[0] = enginelex.extract_lexer_facts(
+            enginelex.parser_scala_path(boot.repo()).read_text(encoding='utf-8'))['punctuation']
+        texts = set()
+        for part in par.pmap(_collect_item, items, procs, chunksize=1):
+            texts |= part
+        install_engine(texts)
+    _selfcheck()
+    rows = par.pmap(_run_item, items, procs, chunksize=1)
     types = sum(r[0] for r in rows)
     names = sum(r[1] for r in rows)
     idents = sum(r[2] for r in rows)
@@ -649,10 +785,10 @@ def check(tier, seed, procs):
         'assumptions': [
             'front end runs over vf shims: parsimonious (functional PEG stand-in with the real node shapes, stdlib re instead of the regex package), '
             'IPython (get_ipython() -> None); pandas/pyspark/py4j/plotly/bokeh are inert stubs; Env._hc is a real HailContext over vf.hailenv.DummyBackend',
-            'engine side is a model (vf.enginelex): accepted escape characters, identifier delimiter, punctuation set and the unescape table are '
-            'extracted from the current Parser.scala / StringEscapeUtils.scala at run time (shape change -> harness error); JavaTokenParsers.ident '
-            '(Character.isJavaIdentifierStart/Part per UTF-16 unit), wholeNumber and whitespace are modelled from the library/JDK documentation; '
-            'IRParser.type_expr is re-implemented for the type constructors enumerated here',
+            'engine side: see coverage.engine_side.engine for which acceptor judged identifiers in this run -- by default the REAL IRLexer sliced '
+            'from Parser.scala and run on a JVM (one batched call); fallback is the vf.enginelex model whose escape set / delimiter / punctuation / '
+            'unescape table are extracted from the current Scala sources (shape change -> harness error) and whose JavaTokenParsers.ident is modelled. '
+            'In both cases a whole type string is cut into pieces in python and IRParser.type_expr is re-implemented for the enumerated constructors',
             'hl.dtype cannot read the engine-facing form (it is a different concrete syntax); the engine-facing form is judged by the engine-side reader, '
             'and by vcf_type_grammar on the sub-language that grammar covers',
             "the genome name 'default' is excluded (hail reserves it as an alias)",
@@ -663,11 +799,15 @@ def check(tier, seed, procs):
 
 
 def replay(obj):
-    _ensure_engine()
+    from vf import enginelex
+
     _hl()
+    punct = enginelex.extract_lexer_facts(enginelex.parser_scala_path(boot.repo()).read_text(encoding='utf-8'))['punctuation']
     if obj['kind'] == 'name':
+        install_engine(collect_name_texts(obj['name']))
         vs, _ = check_name(obj['name'])
         return (not vs), ('; '.join(f'{s}: {m}' for s, m in vs) or 'no violation')
     spec = _tuplify(obj['spec'])
+    install_engine(collect_type_texts(spec, punct))
     vs = check_type(spec)
     return (not vs), ('; '.join(f'{s}: {m}' for s, m, _ in vs) or 'no violation')
